@@ -6,6 +6,7 @@ EXTENDS LmodEnv, Json
 CONSTANTS Mode,        \* "quote" | "merge" | "argv"
           MaxLen,      \* quote mode: values are all strings over Alphabet up to this length
           MaxOps,      \* merge mode: scripts of up to this many operations
+          VaryVars,    \* merge mode: variables the caller may lack (the others are always set)
           Shard, NShards
 
 VARIABLES caller, script, mods, av
@@ -33,9 +34,10 @@ Scripts(n) == UNION { [1..k -> MergeOps] : k \in 0..n }
 ScriptList == SetToSeq(Scripts(MaxOps))
 MyScripts  == { ScriptList[i] : i \in { j \in 1..Len(ScriptList) : j % NShards = Shard } }
 
-Opt(v, x) == { [u \in {} |-> <<>>], v :> x }              \* variable absent or set to x
-Callers == { Amb @@ a @@ b @@ p : a \in Opt("VA", <<111>>), b \in Opt("VB", <<107>>),
-                                  p \in Opt("VP", <<112, COLON, 113>>) }
+Opt(v, x)  == { [u \in {} |-> <<>>], v :> x }             \* variable absent or set to x
+OptV(v, x) == IF v \in VaryVars THEN Opt(v, x) ELSE { v :> x }
+Callers == { Amb @@ a @@ b @@ p : a \in OptV("VA", <<111>>), b \in OptV("VB", <<107>>),
+                                  p \in OptV("VP", <<112, COLON, 113>>) }
 
 Init ==
   \/ /\ Mode = "quote"
@@ -57,8 +59,9 @@ Init ==
 Next == FALSE /\ UNCHANGED vars
 
 (* the task: EXE DST <file> [-x val]; the file is copied into the job directory when bit 1 of av is set *)
-Argv == << "EXE", "DST", IF av % 2 = 1 THEN "JOB/in.txt" ELSE "T/in.txt" >>
-        \o (IF av \div 2 = 1 THEN << "-x", "val" >> ELSE <<>>)
+NativeArgv == << "EXE", "DST", IF av % 2 = 1 THEN "JOB/in.txt" ELSE "T/in.txt" >>
+              \o (IF av \div 2 = 1 THEN << "-x", "val" >> ELSE <<>>)
+LmodArgv   == NativeArgv          \* "executes the same argument vector as the native environment"
 
 Case ==
   [ caller  |-> caller,
@@ -67,7 +70,8 @@ Case ==
     av      |-> av,
     obs     |-> Obs,
     absent  |-> ABSENT,
-    argv    |-> Argv,                                   \* same vector as the native environment
+    native  |-> NativeArgv,
+    argv    |-> LmodArgv,
     pass    |-> PassThrough(caller, mods, script, Obs),
     setby   |-> SetByModules(caller, mods, script, Obs),
     open    |-> Obs \cap Open(Session(mods, script)),
